@@ -275,3 +275,29 @@ package invoices
 //@   site call hodlSubscribe: assert arg(subscriber) == hodlChan && arg(circuitKey) == ctx.circuitKey && retn(UpdateInvoice, 1) == nil
 //@   site call notifyClients: assert arg(hash) == ctx.hash && arg(invoice) == retn(UpdateInvoice, 0) && retn(UpdateInvoice, 1) == nil
 //@   site call makeInvoiceExpiry: assert arg(0) == ctx.hash && arg(1) == retn(UpdateInvoice, 0)
+//@
+//@ // ---- SQL updater: an HTLC row is written and later addressed under the same key (unsigned decimal of the
+//@ // ---- full 64-bit channel id, htlc id, invoice id) and with the state it is told
+//@ func (s *sqlInvoiceUpdater) AddHtlc
+//@   props C15
+//@   loop * havoc
+//@   site call ToUint64: assert arg(0) == circuitKey.ChanID
+//@   site call FormatUint: assert arg(0) == ret(ToUint64) && arg(1) == 10
+//@   site call InsertInvoiceHTLC: assert arg(2).ChanID == ret(FormatUint) && arg(2).HtlcID == swrap(circuitKey.HtlcID, 64) &&
+//@        arg(2).InvoiceID == swrap(s.invoice.AddIndex, 64) && arg(2).State == swrap(newHtlc.State, 16) &&
+//@        arg(2).AmountMsat == swrap(newHtlc.Amt, 64)
+//@
+//@ func (s *sqlInvoiceUpdater) ResolveHtlc
+//@   props C15
+//@   site call ToUint64: assert arg(0) == circuitKey.ChanID
+//@   site call FormatUint: assert arg(0) == ret(ToUint64) && arg(1) == 10
+//@   site call UpdateInvoiceHTLC: assert arg(2).ChanID == ret(FormatUint) && arg(2).HtlcID == swrap(circuitKey.HtlcID, 64) &&
+//@        arg(2).InvoiceID == swrap(s.invoice.AddIndex, 64) && arg(2).State == swrap(state, 16)
+//@
+//@ func (s *sqlInvoiceUpdater) AddAmpHtlcPreimage
+//@   props C15
+//@   site call ToUint64: assert arg(0) == circuitKey.ChanID
+//@   site call FormatUint: assert arg(0) == ret(ToUint64) && arg(1) == 10
+//@   site call UpdateAMPSubInvoiceHTLCPreimage: assert arg(2).ChanID == ret(FormatUint) && arg(2).HtlcID == swrap(circuitKey.HtlcID, 64) &&
+//@        arg(2).InvoiceID == swrap(s.invoice.AddIndex, 64)
+//@   ensures result == nil ==> retn(RowsAffected, 0) != 0
